@@ -113,6 +113,7 @@ class Track:
         self.loads = 0
         self.nf = 0                 # failed load attempts absorbed in the current step
         self.after_fault = False    # the previous access to this handle failed in load()
+        self.via_second = False     # the latest load happened through the second map
         self.kept_taken_cached = False      # the kept static snapshot was taken while this handle was cached
 
 
@@ -144,7 +145,7 @@ def absorb(sp, t, when):
     return nl, nc
 
 
-def h_access(sp, L=3, n_handles=2, kinds=KINDS, faults=0, retake=False, flavours=('plain',)):
+def h_access(sp, L=3, n_handles=2, kinds=KINDS, faults=0, retake=False, flavours=('plain',), second_owner=False):
     kind = sp.pick(list(kinds), 'kind')
     # load fault: the load attempt number `fail_at` (solver-chosen in 1..faults) of every handle raises once
     fail_at = sp.choose(faults, 'fail_at') + 1 if faults else 0
@@ -161,6 +162,12 @@ def h_access(sp, L=3, n_handles=2, kinds=KINDS, faults=0, retake=False, flavours
     h1 = HandleCls('h1@a/k', kind, fail_at)
     m['a/k'] = h1
     hs.append(h1)
+    m2 = st2 = None
+    if second_owner:
+        # the same handle OBJECT stored in a second map after it already belongs to the first one
+        m2 = flavoured(ResourceMap, flavour)()
+        m2['sub/x'] = h1
+        st2 = m2.get_static_map()
     st = m.get_static_map()
     tracks = [Track(h) for h in hs]
     loop = desper.SimpleLoop() if kind == 'world' else None
@@ -174,7 +181,11 @@ def h_access(sp, L=3, n_handles=2, kinds=KINDS, faults=0, retake=False, flavours
                     ('static.a.k', lambda: st.a.k),
                     ("static['a']['k']", lambda: st['a']['k']),
                     ("static.get('a').get('k')()", lambda: st.get('a').get('k')()),
-                    ('m.get_static_map().a.k', lambda: m.get_static_map().a.k)]
+                    ('m.get_static_map().a.k', lambda: m.get_static_map().a.k)] + ([
+                        ("second map m2['sub/x']", lambda: m2['sub/x']),
+                        ("second map m2['sub']['x']", lambda: m2['sub']['x']),
+                        ('second map static2.sub.x', lambda: st2.sub.x),
+                        ("second map m2.get('sub/x')()", lambda: m2.get('sub/x')())] if second_owner else [])
         return [('h()', lambda: h()),
                 ("m['_k']", lambda: m['_k']),
                 ('static._k', lambda: st._k),
@@ -239,6 +250,14 @@ def h_access(sp, L=3, n_handles=2, kinds=KINDS, faults=0, retake=False, flavours
                     sp.cover('reload-after-clear')
                 if 'static' in name:
                     sp.cover('static-access')
+                if name.startswith('second map'):
+                    sp.cover('second-owner-access')
+                    sp.cover('second-owner-cached-hit' if before else 'second-owner-load')
+                    if not before and t.loads > 1:
+                        sp.cover('second-owner-reload-after-clear')
+                elif t.via_second and before:
+                    sp.cover('first-owner-hit-after-second-owner-load')
+                t.via_second = name.startswith('second map') if not before else t.via_second
                 if name.startswith('static') and t.kept_taken_cached:
                     sp.cover('kept-static-taken-while-cached')
                     if not before:
@@ -317,6 +336,8 @@ _FAULT_REQ = ['load-fault', 'access-after-fault', 'static-access-after-fault', '
 
 _FLAV_REQ = ['flavour-falsy', 'flavour-empty', 'flavour-equal', 'cached-hit', 'reload-after-clear', 'static-access',
              'clear-cached', 'switch', 'switch-clears']
+_SECOND_REQ = ['second-owner-access', 'second-owner-cached-hit', 'second-owner-load', 'second-owner-reload-after-clear',
+               'first-owner-hit-after-second-owner-load', 'cached-hit', 'static-access', 'clear-cached']
 _RETAKE_REQ = ['retake', 'retake-while-cached', 'kept-static-taken-while-cached', 'kept-static-reload-after-clear',
                'cached-hit', 'reload-after-clear', 'static-access', 'clear-cached']
 
@@ -326,7 +347,8 @@ TIERS = {
               ('access', dict(L=4, n_handles=1, kinds=['[]'], faults=2), {'required': _FAULT_REQ}),
               ('access', dict(L=3, n_handles=1, kinds=['world'], faults=2),
                {'required': _FAULT_REQ[:2] + ['switch-load-fault']}),
-              ('access', dict(L=3, n_handles=1, kinds=['[]', 'world'], flavours=FLAVOURS), {'required': _FLAV_REQ})],
+              ('access', dict(L=3, n_handles=1, kinds=['[]', 'world'], flavours=FLAVOURS), {'required': _FLAV_REQ}),
+              ('access', dict(L=3, n_handles=1, kinds=['None', '[]'], second_owner=True), {'required': _SECOND_REQ})],
     'thorough': [('access', dict(L=5, n_handles=1, retake=True),
                   {'required': _RETAKE_REQ + ['switch', 'switch-clears', 'cached-hit-falsy']}),
                  ('access', dict(L=4, n_handles=2)),
@@ -334,7 +356,9 @@ TIERS = {
                  ('access', dict(L=4, n_handles=1, faults=3), {'required': _FAULT_REQ + ['switch-load-fault']}),
                  ('access', dict(L=3, n_handles=2, faults=2), {'required': _FAULT_REQ + ['switch-load-fault']}),
                  ('access', dict(L=4, n_handles=1, flavours=FLAVOURS), {'required': _FLAV_REQ + ['cached-hit-falsy']}),
-                 ('access', dict(L=3, n_handles=2, kinds=['[]', 'world'], flavours=FLAVOURS), {'required': _FLAV_REQ})],
+                 ('access', dict(L=3, n_handles=2, kinds=['[]', 'world'], flavours=FLAVOURS), {'required': _FLAV_REQ}),
+                 ('access', dict(L=4, n_handles=1, kinds=['None', '[]', 'world'], second_owner=True),
+                  {'required': _SECOND_REQ})],
 }
 BUDGET_S = {'quick': 300, 'thorough': 1500}
 
@@ -356,6 +380,8 @@ BOUNDS = {
                 'all kinds, 1 handle, attempt 1..3 raises, 4 ops; 2 handles, attempt 1..2, 3 ops',
 }
 ASSUMPTIONS = [
+    'second-owner entries: the same Handle object is stored in a second map after it already belongs to the first; '
+    'the access paths through the second map (and its static snapshot) are ordinary access paths of that handle',
     'flavour entries: the Handle objects (and the maps holding them) are instances of subclasses that are falsy, '
     'empty (__len__ 0) or equal to everything; the oracle is unchanged and only compares identities',
     'load fault entries: a load() that raises has loaded nothing, so the exception must reach the accessor (there is '
